@@ -387,6 +387,34 @@ fn indicators(ctx: &Ctx, r: &mut Report) {
 				_ => {}
 			}
 		}
+		// one uninterrupted trend of 70 000 candles, up and down (every candle a new extreme, no reversal): counters that are
+		// incremented per new extreme / per step of a trend and reset only on a reversal reach the capacity of u8 and u16
+		k += 1;
+		if ctx.mine(k) {
+			for up in [true, false] {
+				let f: f64 = if up { 1.0002 } else { 1.0 / 1.0002 };
+				let mut p = 100.0f64;
+				let ramp: Vec<Candle> = (0..70_000)
+					.map(|_| {
+						let o = p;
+						p *= f;
+						gen::mk(o, o.max(p), o.min(p), p, 1000.0)
+					})
+					.collect();
+				let res = guard(|| {
+					let mut i = base.init(&ramp[0]).ok()?;
+					for c in &ramp {
+						i.next(c);
+					}
+					Some(())
+				});
+				r.eval(ramp.len() as u64);
+				if let Err(p) = res {
+					r.violate(&format!("C10|{}::next|panic:{}@{}|profile={PROFILE}", d.name, p.class(), p.file()), &format!("an initialised indicator panicked on valid candles: {} ({})", p.msg, p.loc), || json!({"indicator": d.name, "config": "default", "stream": if up { "70000-candle uninterrupted up-trend" } else { "70000-candle uninterrupted down-trend" }}));
+				}
+			}
+			r.cell("stream:70000-candle-uninterrupted-trend");
+		}
 		// systematic: every MA kind in all MA fields (default periods) x every source
 		let has_source = obj.iter().any(|(_, c)| field_kind(c) == FieldKind::Source);
 		let has_ma = obj.iter().any(|(_, c)| field_kind(c) == FieldKind::Ma);
